@@ -118,6 +118,14 @@ func NewGenModel(cfg Config) *GenModel {
 	return m
 }
 
+// NewGenModelKeepTables returns the model after every connection was closed and connection 0 reopened: tables and
+// rough row counts survive, transactions and extra connections do not.
+func NewGenModelKeepTables(old *GenModel) *GenModel {
+	m := &GenModel{Writer: -1, LSOpen: true, Levels: old.Levels, Table: old.Table, Rows: old.Rows, Steps: old.Steps}
+	m.ConnOpen[0] = true
+	return m
+}
+
 var pageSizes = []int{512, 1024, 4096, 512, 1024, 4096, 512, 1024, 4096, 2048, 8192, 16384, 32768, 65536}
 
 // GenConfig draws a configuration.
